@@ -84,4 +84,4 @@ def check(ctx):
                        msg="errback() of a request taken from %s without testing .called, but %s registers requests whose Deferred was created "
                            "already fired (%s): AlreadyCalledError skips the rest of the clean-up" % (rg, tr0.label(), where(st0)))
     ctx.count("registry_x_clean_loss_path", n)
-    ctx.floor("registry x clean-loss-path instances", n, 60)
+    ctx.floor("registry x clean-loss-path instances", n, 10)
